@@ -14,6 +14,7 @@ import (
 	"fmt"
 	"os"
 	"path/filepath"
+	"regexp"
 	"runtime/debug"
 	"sort"
 	"strconv"
@@ -335,6 +336,12 @@ func Check[C any](t *testing.T, prop string, gen func(*rapid.T) C, run func(C, *
 			}
 		}
 		f := SafeRun(prop, run, c, o)
+		if f != nil && timedOut(f) {
+			// "an operation failed" whose error is an expired deadline / a busy system is a time budget that ran out (a saturated
+			// machine), not an observation about the property: could not judge
+			Inconclusive(fmt.Sprintf("%s: %s", f.Signature, clip(strings.SplitN(f.Msg, "\n", 2)[0], 300)))
+			f = nil
+		}
 		if f != nil && IsKnown(f.Signature) {
 			o.KnownHit(f.Signature)
 			f = nil
@@ -363,6 +370,17 @@ func Check[C any](t *testing.T, prop string, gen func(*rapid.T) C, run func(C, *
 			rt.Fatalf("VERIF-FAIL signature=%s step=%d replay=%s\n%s", f.Signature, f.Step, p, clip(f.Msg, 4000))
 		}
 	})
+}
+
+var timeoutRE = regexp.MustCompile(`context deadline exceeded|DeadlineExceeded|i/o timeout|: timeout$|: timeout\b|system is too busy|timeout waiting|request timed out`)
+
+// timedOut: failures of the "-error" kind (an engine / RPC call the harness needed returned an error) whose first line shows that the
+// error is an expired deadline.
+func timedOut(f *Failure) bool {
+	if !strings.Contains(f.Signature, "-error") {
+		return false
+	}
+	return timeoutRE.MatchString(clip(strings.SplitN(f.Msg, "\n", 2)[0], 600))
 }
 
 func clip(s string, n int) string {
